@@ -287,18 +287,26 @@ def make_const(exact, radixes):
 
 
 # =============================================================== generators
-def gen_radixes(rng, max_dim):
-    while True:
-        n = rng.choice([1, 2, 2, 3, 3, 3, 4, 4, 5, 6])
+def gen_radixes(rng, max_dim, min_dim=2):
+    """Widths 1-6, radixes 2-4; the best (largest) of three draws that fit so
+    that the dimension budget is actually used."""
+    best = None
+    for _ in range(40):
+        n = rng.choice([1, 2, 2, 3, 3, 3, 4, 4, 5, 5, 6])
         mix = rng.random()
-        if mix < .35:
+        if mix < .3:
             rad = [2] * n
-        elif mix < .5:
+        elif mix < .42:
             rad = [3] * n
         else:
-            rad = [rng.choice([2, 2, 3, 4]) for _ in range(n)]
-        if math.prod(rad) <= max_dim:
-            return rad
+            rad = [rng.choice([2, 2, 3, 3, 4]) for _ in range(n)]
+        d = math.prod(rad)
+        if min_dim <= d <= max_dim or (d <= max_dim and best is None):
+            if best is None or (rng.random() < .6 and d > math.prod(best)):
+                best = rad
+            if rng.random() < .3:
+                break
+    return best or [2]
 
 
 def gen_gate(rng, rads, depth):
@@ -707,6 +715,7 @@ class Case:
         self.em = Emitter()
         self.checks = []        # (line index, kind, expected, context)
         self.problems = []      # (signature, what, found_input)
+        self.structural = False
         self.counts = {}
 
     def bump(self, k, n=1):
@@ -736,8 +745,29 @@ def describe_circuit(c):
 
 # ------------------------------------------------------------ circuit cases
 def circuit_case(rng, key, max_dim, lean_dim, grad_dim, do_fd,
-                 lean_grad_dim=32, embedprod_dim=16):
-    rad = gen_radixes(rng, max_dim)
+                 lean_grad_dim=32, embedprod_dim=16, structural=False):
+    if structural:
+        # wide circuits: parameter API and iteration only (no matrices)
+        n = rng.randrange(7, 25)
+        rad = [rng.choice([2, 2, 3, 4]) for _ in range(n)]
+        c = gen_circuit(rng, rad, rng.randrange(4, 30))
+        case = Case(key, describe_circuit(c))
+        case.structural = True
+        case.bump('structural')
+        cid = case.em.emit_circuit(c)
+        ops_iter = list(c.operations_with_cycles())
+        exp = sorted((cy, op.location[0]) for cy, _, op in all_points(c))
+        if [(cy, op.location[0]) for cy, op in ops_iter] != exp:
+            case.problem('iteration-order', 'default iteration is not sorted '
+                         'by (cycle, location[0])', True)
+        case.expect(f'order {cid}', 'exact', ' '.join(
+            f'{cy}:{case.em.gate_id(op.gate)}:{op.location[0]}'
+            for cy, op in ops_iter))
+        param_api(rng, case, c, cid, True)
+        iteration_queries(rng, case, c, cid, True)
+        iteration_queries(rng, case, c, cid, True)
+        return case
+    rad = gen_radixes(rng, max_dim, max(2, max_dim // 8))
     dim = math.prod(rad)
     nops = rng.randrange(1, 13 if dim <= 64 else 8)
     c = gen_circuit(rng, rad, nops)
@@ -908,7 +938,7 @@ def circuit_case(rng, key, max_dim, lean_dim, grad_dim, do_fd,
     # --- after the sequence the simulation must follow the new parameters
     u3_impl = call(lambda: np.array(c.get_unitary()))
     verdict(case, 'unitary-after-param-api', u3_impl, o_unitary(c))
-    if with_lean:
+    if with_lean and dim <= 64:
         case.expect(f'unitary {cid} |', 'tensors1', u3_impl,
                     'unitary-after-param-api')
 
@@ -1006,7 +1036,8 @@ def param_api(rng, case, c, cid, with_lean):
                 case.expect(f'setparams {cid} | ' + ' '.join(map(ptok, vs)),
                             'exact', 'ok' if r[0] == 'ok' else f'err {r[1]}')
         elif kind == 'freeze':
-            u_before = o_unitary(c) if 0 <= i < npar else None
+            u_before = o_unitary(c) if (0 <= i < npar and
+                                        not case.structural) else None
             where = call(lambda: c.get_param_location(i))
             r = call(lambda: c.freeze_param(i))
             if r[0] == 'ok' and where[0] == 'ok':
@@ -1021,7 +1052,8 @@ def param_api(rng, case, c, cid, with_lean):
                     case.problem('freeze_param', f'freeze_param({i}) did not '
                                  'remove exactly entry i of the flat vector',
                                  True)
-                elif not close(np.array(c.get_unitary()), u_before):
+                elif (u_before is not None and
+                      not close(np.array(c.get_unitary()), u_before)):
                     case.problem('freeze_param-unitary', 'freeze_param '
                                  'changed the unitary', True)
             elif r != ('err', 'IndexError') or after != flat_before:
@@ -1306,6 +1338,9 @@ def run_chunk(args):
             rng, (tier, seed, chunk, 'c', i), md, cfg['lean_dim'],
             cfg['grad_dim'], cfg['fd'], cfg['lean_grad_dim'],
             cfg['embedprod_dim']))
+    for i in range(cfg.get('n_struct', 0)):
+        cases.append(circuit_case(rng, (tier, seed, chunk, 's', i), 0, 0, 0,
+                                  False, structural=True))
     # one driver run for the whole chunk
     lines = []
     spans = []
@@ -1371,13 +1406,13 @@ def run(ck: Check):
     quick = ck.tier != 'thorough'
     cfg = dict(small_dim=32, mid_dim=64, max_dim=256, mid_frac=.22,
                big_frac=.05, lean_dim=128, grad_dim=64, lean_grad_dim=32,
-               embedprod_dim=16, build_dim=81, fd=True) if quick else \
+               embedprod_dim=16, build_dim=81, fd=True, n_struct=1) if quick else \
         dict(small_dim=48, mid_dim=128, max_dim=4096, mid_frac=.25,
              big_frac=.04, lean_dim=256, grad_dim=256, lean_grad_dim=48,
-             embedprod_dim=24, build_dim=256, fd=True)
-    nchunks = 32 if quick else 320
-    n_circ = 20 if quick else 60
-    n_build = 6 if quick else 12
+             embedprod_dim=24, build_dim=256, fd=True, n_struct=2)
+    nchunks = 48 if quick else 640
+    n_circ = 8 if quick else 30
+    n_build = 3 if quick else 6
     fixed_cases(ck)
     jobs = [(ck.tier, ck.seed, i, n_circ, n_build, cfg)
             for i in range(nchunks)]
